@@ -45,6 +45,9 @@ pub struct Ledger {
     pub eq_overrun: usize,
     pub eq_default: bool,
     pub eq_calls: u64,
+    /// callbacks are counted / panics injected / comparisons scripted only while a
+    /// measured call into the code under test is running
+    pub in_call: bool,
 }
 
 thread_local! {
@@ -59,7 +62,7 @@ pub fn with<R>(f: impl FnOnce(&mut Ledger) -> R) -> R {
 }
 
 pub fn reset() {
-    with(|l| *l = Ledger { next: 1, ..Ledger::default() });
+    with(|l| *l = Ledger { next: 1, log_cb: l.log_cb, ..Ledger::default() });
 }
 
 /// start of an observation window
@@ -151,6 +154,9 @@ pub fn on_drop(kind: Kind, magic_ok: bool, serial: u32) -> bool {
 /// A user callback is about to run. Returns true if the harness wants it to panic.
 pub fn callback(kind: char, a: u32, b: u32) -> bool {
     with(|l| {
+        if !l.in_call {
+            return false;
+        }
         l.cb += 1;
         if l.log_cb {
             l.cb_log.push((kind, a, b));
@@ -174,6 +180,9 @@ pub fn maybe_panic(kind: char, a: u32, b: u32) {
 pub fn eq_outcome(lawful: bool) -> bool {
     with(|l| {
         l.eq_calls += 1;
+        if !l.in_call {
+            return lawful;
+        }
         match &l.eq_script {
             None => lawful,
             Some(s) => {
@@ -238,10 +247,12 @@ impl Drop for Suspend {
 }
 
 pub fn arm() {
+    with(|l| l.in_call = true);
     ALLOCS.with(|c| c.set(0));
     ARMED.with(|a| a.set(true));
 }
 pub fn disarm() -> u64 {
     ARMED.with(|a| a.set(false));
+    with(|l| l.in_call = false);
     ALLOCS.with(|c| c.get())
 }
